@@ -235,7 +235,7 @@ theorem simple_render (a : AtomSyn) (k : Str) (hl : legalAtom a = true) (hk : a.
   have hpat : patQ = .none → unquotedOk isStopPattern pat = true ∧ StopP k := by
     intro hq
     simp [hq] at h3
-    exact ⟨h3.1, hk hq⟩
+    exact ⟨h3, hk hq⟩
   have hP := expectPattern_render patQ pat k hpat
   cases sh with
   | true =>
